@@ -123,6 +123,19 @@ CHECKS["C17"] = (
     "DESIGN.md section 4, C17",
 )
 
+CHECKS["C18"] = (
+    "property-based testing of the DFT solver: generated (functional, geometry, bulk state, initial profile, solver chain of 1-3 Picard/Anderson/Newton stages, specification) with defining-residual oracles recomputed by the harness (RMS Euler-Lagrange residual from residual(false), positivity, particle-number identity) and differential agreement of observables between solver chains; success lattice",
+    "Lattice of 120 problems (propane, butane, PeTS x T/Tc in {0.6..0.9} x planar interface / LJ93 slit / LJ93 sphere, each with a second solver chain and a Moles / TotalMoles / equimolar-surface solve; success demanded) plus 160 generated problems over four functional families, planar interfaces and slit / cylindrical / spherical pores with 2-3 generated solver chains each.",
+    "Cross-chain agreement is asserted on the lattice and for planar interfaces only (two distinct stationary profiles with residual 1e-15 exist in a cylindrical pore); its tolerance 50 T sum m_i int|res_i| is derived from the way grand_potential_density eliminates ln rho. Open known findings masked by signature: Moles on heterosegmented chains, Anderson stages drifting rho_bulk under the default specification, AntiSymWhiteBear NaN inside walls, negative densities on the cylinder axis with gc chains.",
+    "DESIGN.md section 4, C18",
+)
+CHECKS["C19"] = (
+    "property-based testing with re-solve oracles: profiles re-solved at mu +- h, p +- h, T +- h (Richardson h, h/2 with an error gate) against the reported N, dn_dmu, dn_dp, dn_dt and adsorption enthalpies; Henry limit along decreasing bulk densities; metamorphic box-length / resolution invariance, monotonic decrease with T and pDGT comparison for the surface tension",
+    "Per quick run 128 pore cases (slit / cylinder / sphere, LJ93 / Steele / SimpleLJ93 / hard wall, pure and binary, spherical and chain molecules), 96 Henry-limit cases and 64 planar-interface cases; every case consists of 7-15 profile solves polished by an own Newton iteration to 1e-13 at exactly the requested bulk state.",
+    "About 40 % of the generated pores fail their reference solve and are discarded (spread over all classes). Tolerances: derivatives 2e-4 (measured 4e-6), Gibbs relation 2e-4 in slits and first-order convergence in spheres, Henry 1e-4, gamma(L,n) 1e-3, pDGT within 15 % (PeTS reaches 10 % at 0.5 Tc). Open known findings: absolute GMRES tolerance spoils dn_dt of dilute profiles, polar-transform plateau of the Gibbs relation in cylinders, NaN dn_dt for some functionals, solve_pdgt returning NaN.",
+    "DESIGN.md section 4, C19",
+)
+
 NOT_YET = {}
 
 def main():
